@@ -231,7 +231,7 @@ class PropertyRun:
         return path
 
 
-def run_native(qual, args, timeout=120):
+def run_native(qual, args, timeout=900):
     """Run the native checker of `qual` on `args` in a subprocess (isolation from hangs / crashes)."""
     payload = json.dumps({"qual": qual, "args": jsonable(args)})
     env = dict(os.environ)
@@ -239,7 +239,7 @@ def run_native(qual, args, timeout=120):
     try:
         p = subprocess.run([sys.executable, "-m", "pyvc.nativerun"], input=payload, capture_output=True, text=True, timeout=timeout, env=env, cwd=VERIF)
     except subprocess.TimeoutExpired:
-        return {"ok": False, "detail": f"timeout after {timeout}s", "timeout": True}
+        return {"ok": None, "detail": f"inconclusive: replay subprocess exceeded {timeout} s of wall-clock time", "timeout": True}
     if p.returncode != 0:
         return {"ok": None, "detail": "native harness crashed: " + p.stderr[-2000:]}
     try:
